@@ -19,6 +19,16 @@ pub fn vec_with_capacity<T>(_capacity: usize) -> Vec<T> {
     unsafe { Vec::from_raw_parts(p, 0, CAP) }
 }
 
+/// small-capacity variant (8) for harnesses whose vectors hold at most a few large elements
+pub fn vec_new_small<T>() -> Vec<T> {
+    let layout = Layout::array::<T>(8).unwrap();
+    if layout.size() == 0 {
+        return unsafe { Vec::from_raw_parts(std::ptr::NonNull::<T>::dangling().as_ptr(), 0, 8) };
+    }
+    let p = unsafe { alloc(layout) } as *mut T;
+    unsafe { Vec::from_raw_parts(p, 0, 8) }
+}
+
 pub fn vec_new<T>() -> Vec<T> {
     vec_with_capacity::<T>(CAP)
 }
@@ -109,4 +119,13 @@ pub fn ord_code(o: Ordering) -> i8 {
         Ordering::Equal => 0,
         Ordering::Greater => 1,
     }
+}
+
+/// S6: io::Error::new(kind, payload) -> io::Error::from(kind): keeps the kind, drops the
+/// boxed payload (message text is never the subject).
+pub fn io_error_new<E>(kind: std::io::ErrorKind, _error: E) -> std::io::Error
+where
+    E: Into<Box<dyn std::error::Error + Send + Sync>>,
+{
+    std::io::Error::from(kind)
 }
